@@ -18,6 +18,9 @@ Hypotheses of the equalities: the vector has at most `2^63` slots (a Rust `Vec` 
 `get` the index is in range (`idx + 1 < tree.len()`, otherwise `self.tree[idx + 1]` panics — this is the precondition of
 the property's theorems as well).
 -/
+-- the simp sets name every fact a harmless rewrite of the Rust text may need; on the pinned text some are unused
+set_option linter.unusedSimpArgs false
+
 namespace RbV.Thm.GenSrcFenwick
 open RbV RbV.Rs RbV.Gen.SrcFenwick
 open RbV.Model.Fenwick (lowbit getLoop setLoop)
